@@ -514,6 +514,18 @@ func c19RejectionNoRewrite(r *an.Run) {
 			ff = c.(*ssa.Call)
 		}
 	}
+	if ff == nil {
+		// target discovery through a private helper of Run (getwd + findFiles)
+		for _, g := range helperGroup(f, 2) {
+			for _, c := range an.Calls(g) {
+				if an.StaticCallee(c) == r.P.Func(mainP, "findFiles") {
+					if site, ok := siteIn(f, c).(*ssa.Call); ok {
+						ff = site
+					}
+				}
+			}
+		}
+	}
 	if !r.Check(lp != nil && ff != nil, short(f)+"|calls", f.Pos(), "Run loads the patches and discovers targets") {
 		return
 	}
